@@ -24,7 +24,9 @@ STREAM_SINK = {"file": "file0", "stdout": "stdout", "stderr": "stderr", "devtty"
 
 def gen_msg(rng, size_kind, lm):
     n = {"1": 1, "2": 2, "255": 255, "4094": 4094, "4095": 4095, "4096": 4096, "4097": 4097, "65535": 65535,
-         "lm-1": lm - 1, "lm": lm, "small": rng.randrange(3, 80), "empty": 0}[size_kind]
+         "lm-1": lm - 1, "lm": lm, "small": rng.randrange(3, 80), "empty": 0,
+         "pow2": (1 << rng.randrange(1, 18)) + rng.choice([-2, -1, 0, 1, 2]), "any": rng.randrange(1, 5000)}[size_kind]
+    n = max(1, n) if size_kind != "empty" else 0
     style = rng.choice(["allbytes", "ascii", "newlines", "marker"])
     if n == 0:
         return b""
@@ -44,7 +46,7 @@ def make_cases(tr):
     rng = rng_for(PROP, tr)
     n = 2500 if tr == "quick" else 60000
     cases = []
-    sizes = ["1", "2", "255", "4094", "4095", "4096", "4097", "65535", "lm-1", "lm", "small", "small", "small", "empty"]
+    sizes = ["1", "2", "255", "4094", "4095", "4096", "4097", "65535", "lm-1", "lm", "small", "small", "empty", "pow2", "pow2", "pow2", "any", "any", "any"]
     for i in range(n):
         out = rng.choice(OUTPUTS)
         lm = rng.choice([255, 4096, 16383, 65535, 200000 if out not in ("devtty",) else 4096])
@@ -61,8 +63,17 @@ def make_cases(tr):
         ident = rng.choice([None, b"snoopy", b"id-%{snoopy_literal:x}", b"%{env:IDV}", b"a b[c]:", b""])
         real = (rng.random() < (0.12 if tr == "quick" else 0.09)) and out != "devtty"
         errlog = rng.random() < 0.08
-        cases.append(dict(id=i + 1, out=out, lm=lm, msg=msg, chain=chain, drop=drop, fac=fac, lvl=lvl, ident=ident, real=real,
+        afterfork = (not real) and out != "devtty" and rng.random() < 0.12
+        cases.append(dict(afterfork=afterfork, id=i + 1, out=out, lm=lm, msg=msg, chain=chain, drop=drop, fac=fac, lvl=lvl, ident=ident, real=real,
                           errlog=errlog, sk=sk, spell=rng.choice(["plain", "LOG_", "lower"])))
+    # systematic size sweep per output: every power of two -1/0/+1 up to 128 KiB and the stdio / page boundaries
+    sweep = sorted({max(1, (1 << k) + d) for k in range(0, 18) for d in (-1, 0, 1)} | {255, 256, 1000, 2047, 2048, 4094, 4095, 4096, 4097, 8191, 8192, 16383})
+    for out in ("file", "stdout", "stderr", "devtty", "file-template", "socket", "devlog"):
+        for n_ in sweep:
+            if out == "devtty" and n_ > 3000:
+                continue
+            cases.append(dict(afterfork=False, id=len(cases) + 1, out=out, lm=262144, msg=bytes([65 + (n_ % 26)]) * n_, chain="", drop=False, fac="USER", lvl="INFO",
+                              ident=None, real=False, errlog=False, sk="sweep", spell="plain"))
     return cases
 
 
@@ -101,11 +112,20 @@ def script_fn(c, B, s):
     if not getattr(B, "tpl_registered", False):
         s.sinkfile(os.path.join(B.work, "tpl-lit-idv"))      # file1: target of the path-template output
         B.tpl_registered = True
-    s.fork(c["id"])
+    B.begin_case(s, c, solo=(c["out"] == "devtty" or c["real"] or c["afterfork"]))
     s.conf(conf_for(c, B))
     if c["out"] == "devtty":
         s.raw("ctty")
     s.raw("envset " + Script.vec([b"IDV=idv", b"HOME=/"]))
+    if c["afterfork"]:
+        # a failed exec in the parent first, then fork, then the observed call in the child (state cached by the first
+        # call must not leak into what the child logs, e.g. its pid)
+        s.call(c["id"] + 5000000, "execve", b"/bin/c04-prime", [b"prime"], [b"E=1"], -1, 2)
+        s.fork(c["id"] + 6000000)
+        s.call(c["id"], "execve", b"/bin/c04", [c["msg"]] if c["msg"] else [b""], [b"E=1"], -1, 2)
+        s.endfork()
+        B.end_case(s, c)
+        return
     if c["real"]:
         p = os.path.join(B.work, "vt-%d" % c["id"]).encode()
         if not os.path.lexists(p):
@@ -114,7 +134,7 @@ def script_fn(c, B, s):
     else:
         # message travels in argv: cmdline of a single argument is that argument
         s.call(c["id"], "execve", b"/bin/c04", [c["msg"]] if c["msg"] else [b""], [b"E=1"], -1, 2)
-    s.endfork()
+    B.end_case(s, c)
 
 
 def check_fn(c, evs, B):
